@@ -55,7 +55,7 @@ def generate(rng, tier: str, index: int) -> dict:
     for i in range(nn):
         nbrs.append(
             {
-                'idx': i, 'peer_ip': PEERS[i], 'peer_as': rng.choice([65002, 65001]), 'passive': rng.chance(0.35), 'hold': rng.choice([3, 6, 9, 30]),
+                'idx': i, 'peer_ip': PEERS[i], 'peer_as': rng.choice([65002, 65001]), 'passive': rng.chance(0.35), 'hold': rng.choice([0, 3, 6, 9, 30]), 'ka_delay': rng.choice([0.0, 0.0, 0.0, 0.3, 2.0]), 'open_delay': rng.choice([0.0, 0.0, 0.5, 2.5]),
                 'gr': rng.choice([0, 0, 120]), 'spk_rid': rng.choice(['10.0.0.0', '10.9.9.9']) if rng.chance(0.5) else PEERS[i],
                 'spk_accept': rng.choice(['accept', 'accept', 'refuse', 'blackhole', 'slow']),
             }
@@ -72,6 +72,31 @@ def generate(rng, tier: str, index: int) -> dict:
         'micro_seed': rng.randint(1, 1 << 48), 'knobs': knobs(rng), 'neighbors': nbrs, 'events': events,
         'attempts': rng.choice([0, 0, 0, 1, 3]), 'openwait': rng.choice([3, 10]), 'horizon': 60.0,
     }  # fmt: skip
+
+
+def _delay_keepalive(w, sp, delay: float) -> None:
+    """the speaker confirms the OPEN exchange with its KEEPALIVE only after `delay` seconds"""
+    sp.auto_keepalive = False
+
+    def on_open(sess) -> None:
+        def later() -> None:
+            if sess.state != 'closed' and sess.sent_open and not sess.sent_ka and not sp.silent:
+                sess.sent_ka = True
+                sess.send(R.keepalive())
+
+        w.after(delay, later)
+
+    sp.on_open.append(on_open)
+
+
+def _delay_open(w, sp, delay: float) -> None:
+    """the speaker sends its OPEN only `delay` seconds after the connection: exabgp waits in OPENSENT"""
+    sp.auto_open = False
+
+    def on_session(sess) -> None:
+        w.after(delay, lambda: sp.send_open(sess) if sess.state != 'closed' and not sp.silent else None)
+
+    sp.on_session.append(on_session)
 
 
 def neighbor_conf(nb: dict, removed=False, changed=False) -> dict:
@@ -98,6 +123,10 @@ def execute(plan: dict) -> dict:
     speakers = []
     for nb in nbrs:
         sp = Speaker(w, f'p{nb["idx"]}', nb['peer_ip'], nb['peer_as'], nb['spk_rid'], LOCAL, hold=nb['hold'], caps=speaker_caps({'asn': nb['peer_as'], 'gr': nb['gr'] or None}))
+        if nb.get('ka_delay'):
+            _delay_keepalive(w, sp, nb['ka_delay'])
+        if nb.get('open_delay'):
+            _delay_open(w, sp, nb['open_delay'])
         if nb['spk_accept'] == 'slow':
             sp.accept_delay = 3.0
         elif nb['spk_accept'] in ('refuse', 'blackhole'):
@@ -215,6 +244,29 @@ def execute(plan: dict) -> dict:
                 violations.append(viol('C05/transport-left-open', f'peer {name} left {frm} for {to} at t={t:.3f} but the socket it owned (fd {fd}) was still open at the end of that loop pass', frm=frm, to=to))
 
     w.loop.on_pass = on_pass
+
+    unref: dict[int, float] = {}
+
+    def orphan_watch() -> None:
+        owned = set()
+        for p in w.reactor._peers.values():
+            pr = p.proto
+            if pr is not None and pr.connection is not None and pr.connection.io is not None:
+                owned.add(id(pr.connection.io))
+        lst = w.reactor.listener
+        for io in getattr(lst, '_accepted', {}).values():
+            owned.add(id(io))
+        for c in w.net.conns:
+            s_ = c.sock
+            if s_.closed or id(s_) in owned:
+                unref.pop(c.cid, None)
+                continue
+            first = unref.setdefault(c.cid, w.loop.mono)
+            if w.loop.mono - first > 4.0 and not violations and not w.reactor.asynchronous._async:
+                violations.append(viol('C05/orphan-transport', f'connection {c.cid} (peer {c.sock.peer[0] if c.sock.peer else "?"}) has been open for {w.loop.mono - first:.1f}s without belonging to any peer: a transport was replaced or abandoned without being closed', cid=c.cid))
+        w.after(0.5, orphan_watch)
+
+    w.at(2.0, orphan_watch)
 
     for sp in speakers:
         sp.on_session.append(lambda s: probes.__setitem__('incoming_accepted', probes['incoming_accepted'] + (1 if s.conn.initiator == 'remote' else 0)))
